@@ -89,6 +89,9 @@ func run(c *vrt.Ctx) {
 		n = c.Pick(2500, 40000)
 		vrt.Parallel(n, func(i int) { h.runHistory(randomHistory(c.RNG("hist", i))) })
 
+		// one Converger value reused by consecutive runs
+		h.runConvergerReuse(c.Thorough())
+
 		// Settings.Runtime against a guaranteed elapsed time
 		runAll(runtimeCases())
 
